@@ -880,6 +880,12 @@ func (c *Conn) maybeResetTimer() {
 			}
 		}
 	}
+	// Retired connection IDs are removed from the routing table by the run loop. Wake it
+	// up when the next one expires; otherwise an idle connection keeps accepting packets
+	// on a connection ID the peer retired long ago, until something else wakes it up.
+	if t := c.connIDGenerator.NextRetireTime(); !t.IsZero() && t.Before(deadline) {
+		deadline = t
+	}
 	// If the connection is hard-blocked, we can't even send acknowledgments,
 	// nor can we send PTO probe packets.
 	if c.blocked == blockModeHardBlocked {
